@@ -36,6 +36,7 @@ func runC13(l *core.Ledger) {
 	l.Rule("C13-D3", "direction table: requestType ↦ Input(), responseType ↦ Output(), default ↦ error; server decodes into newMessage(requestType), client into newMessage(responseType); who-may-set Message.msgType = newMessage")
 	l.Rule("C13-D4", "handler status transport (C07-E5 re-run)")
 	l.Rule("C13-D5", "Codec.Marshal and Codec.Unmarshal return an error for unsupported argument types")
+	l.Rule("C13-D7", "decoding overwrites: the codec's unmarshal options do not set Merge, or every RecvMsg target is a newMessage result built between two receives")
 	l.Rule("C13-D6", "delivery of a message-carrying response is dominated by the match edge of a comparison of the reply's method with the method recorded in the router at registration")
 
 	um := r.mustFn("C13-D1", "Codec.Unmarshal")
@@ -138,6 +139,7 @@ func runC13(l *core.Ledger) {
 	l.With(map[string]string{"C07-E5": "C13-D4"}, func() { c07E5(l, r) })
 	c13D5(l, r)
 	c13D6(l, r)
+	c13D7(l, r)
 }
 
 // c13SliceTable verifies the side conditions of the b[mdLen:] entry.
@@ -586,4 +588,67 @@ func c13RouterMethodField(l *core.Ledger, r *rt, rm *routerModel) []string {
 		}
 	}
 	return out
+}
+
+// c13D7: a decode must overwrite, not accumulate. proto.UnmarshalOptions.Merge
+// makes Unmarshal keep whatever the target already holds; that is harmless
+// only while every decode target is fresh. The rule is the disjunction: the
+// codec's unmarshal options do not set Merge, or every RecvMsg target of the
+// runtime is built by a newMessage call executed between two receives.
+func c13D7(l *core.Ledger, r *rt) {
+	var mergeSites []ssa.Instruction
+	for _, f := range allFuncs(l.Prog, r.pkg) {
+		sx.AllInstrs(f, func(_ sx.Node, in ssa.Instruction) {
+			st, ok := in.(*ssa.Store)
+			if !ok {
+				return
+			}
+			fa, ok := st.Addr.(*ssa.FieldAddr)
+			if !ok {
+				return
+			}
+			fl := fieldOf(fa.X.Type(), fa.Field)
+			if fl == nil || fl.Name() != "Merge" || !isNamed(fa.X.Type(), "google.golang.org/protobuf/proto", "UnmarshalOptions") {
+				return
+			}
+			if k, isC := st.Val.(*ssa.Const); isC && k.Value != nil && k.Value.String() == "false" {
+				return
+			}
+			mergeSites = append(mergeSites, in)
+		})
+	}
+	var stale []string
+	nrecv := 0
+	for _, f := range allFuncs(l.Prog, r.pkg) {
+		for _, rc := range recvMsgCalls(f) {
+			if len(rc.Call.Args) != 1 {
+				continue
+			}
+			nrecv++
+			os := sx.Origins(rc.Call.Args[0])
+			fresh := len(os) > 0
+			for _, o := range os {
+				c, isCall := o.V.(*ssa.Call)
+				if o.Kind != sx.KCall || !isCall || c.Call.StaticCallee() == nil || c.Call.StaticCallee().Name() != "newMessage" || c.Parent() != f {
+					fresh = false
+					continue
+				}
+				if sx.InLoop(sx.NodeOf(rc)) {
+					if _, must := sx.MustPassThrough(sx.NodeOf(rc), sx.IsInstr(c), sx.IsInstr(rc)); !must {
+						fresh = false
+					}
+				}
+			}
+			if !fresh {
+				stale = append(stale, fnKey(f)+" at "+l.Prog.Pos(rc.Pos()))
+			}
+		}
+	}
+	l.Floor("C13-D7", nrecv, 2, "RecvMsg sites in the runtime")
+	pos := token.NoPos
+	if len(mergeSites) > 0 {
+		pos = mergeSites[0].Pos()
+	}
+	l.Check(len(mergeSites) == 0 || len(stale) == 0, "C13-D7", "decode-overwrites", pos, fmt.Sprintf("Merge set at %d site(s); reused decode targets: %d", len(mergeSites), len(stale)),
+		fmt.Sprintf("the codec's unmarshal options set Merge and a decode target is reused across receives (%v): metadata of an earlier frame (e.g. a handler's error status) survives into later frames, so the decoded message is not equal to the encoded one", stale))
 }
